@@ -378,3 +378,13 @@ Fixpoint drain (fuel : nat) (s : state) : state :=
   | 0 => s
   | S f => match first_enabled s (drain_labels s) with Some (_, s') => drain f s' | None => s end
   end.
+
+(* the same scheduler, also returning the labels it fired *)
+Fixpoint drain_tr (fuel : nat) (s : state) : list label * state :=
+  match fuel with
+  | 0 => ([], s)
+  | S f => match first_enabled s (drain_labels s) with
+           | Some (l, s') => let '(tr, s'') := drain_tr f s' in (l :: tr, s'')
+           | None => ([], s)
+           end
+  end.
